@@ -220,7 +220,9 @@ func (p *PipelinedMemDB) BatchGet(ctx context.Context, keys [][]byte, _ ...kv.Ba
 			return nil, err
 		}
 		m[string(k)] = kv.NewValueEntry(v, 0)
-		p.batchGetCache[string(k)] = util.Some(v)
+		// v points into the arena of the (mutable or flushing) memdb: cache a copy, the arena memory may be
+		// overwritten in place by a later Set or reused after a Cleanup.
+		p.batchGetCache[string(k)] = util.Some(append([]byte{}, v...))
 	}
 	storageValues, err := p.bufferBatchGetter(ctx, shrinkKeys)
 	if err != nil {
@@ -520,6 +522,8 @@ func (p *PipelinedMemDB) Staging() int {
 
 // Cleanup implements MemBuffer interface.
 func (p *PipelinedMemDB) Cleanup(h int) {
+	// the cache may hold values read from the mutable memdb which are rolled back now.
+	p.batchGetCache = nil
 	p.memDB.Cleanup(h)
 }
 
